@@ -997,6 +997,13 @@ package desync
 //@   ghost@entry $short = false
 //@   ghost@after:Copy $short = d.advance.N > 0
 //@   ensures @C19 $short ==> r1 != nil && r0 == nil
+//# F38: the elements of fixed size are accepted only with exactly that size in their header (entry 64, device 32,
+//# index 48, ACL group-obj 24, ACL default 48): any other value of the size field is malformed input
+//@   ensures @C19,C04 r1 == nil && is(r0, FormatIndex) ==> as(r0, FormatIndex).Size == 48
+//@   ensures @C19 r1 == nil && is(r0, FormatACLGroupObj) ==> as(r0, FormatACLGroupObj).Size == 24
+//@   ensures @C19 r1 == nil && is(r0, FormatACLDefault) ==> as(r0, FormatACLDefault).Size == 48
+//@   ensures @C19 r1 == nil && is(r0, FormatEntry) ==> as(r0, FormatEntry).Size == 64
+//@   ensures @C19 r1 == nil && is(r0, FormatDevice) ==> as(r0, FormatDevice).Size == 32
 
 //@ ghost var $merr error
 //@ ghost var $mlen int
